@@ -2,6 +2,7 @@ package main
 
 import (
 	"fmt"
+	"go/ast"
 	"go/constant"
 	"go/token"
 	"go/types"
@@ -358,7 +359,174 @@ func guardEdges(b *ssa.BasicBlock) []guardEdge {
 			}
 		}
 	}
+	out = append(out, correlatedGuards(b, dead, out)...)
 	guardMemo[b] = out
+	return out
+}
+
+// correlatedGuards adds the branch edges that lie on every FEASIBLE path to b
+// although they do not dominate it: paths are pruned when they take two
+// branches that contradict each other about one SSA value compared with
+// constants (`op == Quo` false and later `op == Quo` true).  This is the
+// shape `switch op { case Quo: if r == 0 { return } }; switch op { case Quo:
+// l / r }`: the zero test does not dominate the division, but every path that
+// skips it has left the first switch through `op != Quo`.  Only applied when
+// no block that reaches b lies on a cycle (every path is then acyclic and each
+// SSA value has one instance per path), with a step budget; otherwise nothing
+// is added.
+func correlatedGuards(b *ssa.BasicBlock, dead map[*ssa.BasicBlock]bool, have []guardEdge) []guardEdge {
+	fn := b.Parent()
+	if len(fn.Blocks) == 0 || fn.Blocks[0] == b {
+		return nil
+	}
+	anc := map[*ssa.BasicBlock]bool{b: true}
+	work := []*ssa.BasicBlock{b}
+	for len(work) > 0 {
+		x := work[len(work)-1]
+		work = work[:len(work)-1]
+		for _, p := range x.Preds {
+			if !anc[p] {
+				anc[p] = true
+				work = append(work, p)
+			}
+		}
+	}
+	if !anc[fn.Blocks[0]] {
+		return nil
+	}
+	nIf := 0
+	for x := range anc {
+		if x != b {
+			for _, s := range x.Succs {
+				if anc[s] && blockReaches(s, x) {
+					return nil // a cycle among the ancestors
+				}
+			}
+		}
+		if len(x.Instrs) > 0 {
+			if _, ok := x.Instrs[len(x.Instrs)-1].(*ssa.If); ok {
+				nIf++
+			}
+		}
+	}
+	if blockReaches(b, b) && len(b.Succs) > 0 {
+		for _, s := range b.Succs {
+			if blockReaches(s, b) {
+				return nil
+			}
+		}
+	}
+	if nIf < 2 {
+		return nil
+	}
+	type fact struct {
+		x  ssa.Value
+		k  *ssa.Const
+		eq bool
+	}
+	constEq := func(a, c *ssa.Const) bool {
+		if a.Value == nil || c.Value == nil {
+			return a.Value == nil && c.Value == nil
+		}
+		return constant.Compare(a.Value, token.EQL, c.Value)
+	}
+	contradicts := func(fs []fact, f fact) bool {
+		for _, g := range fs {
+			if g.x != f.x {
+				continue
+			}
+			same := constEq(g.k, f.k)
+			if g.eq && f.eq && !same {
+				return true
+			}
+			if g.eq != f.eq && same {
+				return true
+			}
+		}
+		return false
+	}
+	var result map[guardEdge]bool
+	budget := 200000
+	var facts []fact
+	var edges []guardEdge
+	var rec func(x *ssa.BasicBlock) bool
+	rec = func(x *ssa.BasicBlock) bool {
+		budget--
+		if budget < 0 {
+			return false
+		}
+		if x == b {
+			cur := map[guardEdge]bool{}
+			for _, e := range edges {
+				cur[e] = true
+			}
+			if result == nil {
+				result = cur
+			} else {
+				for e := range result {
+					if !cur[e] {
+						delete(result, e)
+					}
+				}
+			}
+			return true
+		}
+		if dead[x] {
+			return true
+		}
+		iff, isIf := x.Instrs[len(x.Instrs)-1].(*ssa.If)
+		for i, s := range x.Succs {
+			if !anc[s] {
+				continue
+			}
+			nf, ne := len(facts), len(edges)
+			if isIf && len(x.Succs) == 2 && x.Succs[0] != x.Succs[1] {
+				truth := i == 0
+				if bo, ok := iff.Cond.(*ssa.BinOp); ok && (bo.Op == token.EQL || bo.Op == token.NEQ) {
+					for _, pr := range [][2]ssa.Value{{bo.X, bo.Y}, {bo.Y, bo.X}} {
+						if k, ok := pr[1].(*ssa.Const); ok {
+							if _, isC := pr[0].(*ssa.Const); !isC {
+								f := fact{pr[0], k, (bo.Op == token.EQL) == truth}
+								if contradicts(facts, f) {
+									goto next
+								}
+								facts = append(facts, f)
+							}
+							break
+						}
+					}
+				}
+				edges = append(edges, guardEdge{iff, truth})
+			}
+			if !rec(s) {
+				return false
+			}
+		next:
+			facts, edges = facts[:nf], edges[:ne]
+		}
+		return true
+	}
+	if !rec(fn.Blocks[0]) || result == nil {
+		return nil
+	}
+	known := map[guardEdge]bool{}
+	for _, g := range have {
+		known[g] = true
+	}
+	var out []guardEdge
+	for _, x := range fn.Blocks { // deterministic order
+		if len(x.Instrs) == 0 {
+			continue
+		}
+		if iff, ok := x.Instrs[len(x.Instrs)-1].(*ssa.If); ok {
+			for _, t := range []bool{true, false} {
+				g := guardEdge{iff, t}
+				if result[g] && !known[g] {
+					out = append(out, g)
+				}
+			}
+		}
+	}
 	return out
 }
 
@@ -514,6 +682,15 @@ func rangeAtD(v ssa.Value, b *ssa.BasicBlock, ptrBits, depth int) ival {
 					r.hi = maxLen
 				}
 			}
+		case *ssa.UnOp:
+			// an element of an integer slice whose contents are bounded structurally
+			if x.Op == token.MUL {
+				if ia, ok := x.X.(*ssa.IndexAddr); ok {
+					if er, ok := elemRange(ia.X, ptrBits, 0); ok {
+						r.meet(er)
+					}
+				}
+			}
 		case *ssa.Extract:
 			// result of a call: contract table for the varint readers, summaries for repository functions
 			if cl, ok := x.Tuple.(*ssa.Call); ok {
@@ -530,6 +707,8 @@ func rangeAtD(v ssa.Value, b *ssa.BasicBlock, ptrBits, depth int) ival {
 		case *ssa.Phi:
 			j := ival{lo: posInf, hi: negInf, notZero: true}
 			blk := x.Block()
+			var sumHi int64
+			hasSum := false
 			for i, e := range x.Edges {
 				if e == v {
 					continue
@@ -552,6 +731,14 @@ func rangeAtD(v ssa.Value, b *ssa.BasicBlock, ptrBits, depth int) ival {
 					}
 					gr := guardRange(e, pred, ptrBits)
 					if kr.lo >= 0 {
+						// a sum over the elements of a short table row: at most
+						// len(row) additions of at most kr.hi each
+						if trips, ok := rangeLoopTrips(x); ok && kr.hi != posInf && kr.hi <= 1<<20 {
+							sumHi = trips * kr.hi
+							hasSum = true
+							j.notZero = false
+							continue
+						}
 						if gr.hi > j.hi {
 							j.hi = gr.hi
 						}
@@ -576,6 +763,9 @@ func rangeAtD(v ssa.Value, b *ssa.BasicBlock, ptrBits, depth int) ival {
 				if !er.nonZero() {
 					j.notZero = false
 				}
+			}
+			if hasSum && j.hi != negInf && j.hi != posInf && j.hi <= 1<<40 {
+				j.hi += sumHi // initial value plus the bounded sum
 			}
 			if j.lo != posInf && j.hi != negInf && j.lo <= j.hi {
 				r.meet(ival{lo: j.lo, hi: j.hi, notZero: j.notZero})
@@ -1054,4 +1244,105 @@ func describe(v ssa.Value) string {
 		return describe(x.X)
 	}
 	return "v"
+}
+
+// rangeLoopTrips: the phi sits in the header of a `for _, e := range row`
+// loop (an index phi -1, +1 compared with len(row) controls the header) whose
+// row is an element of a package-level constant table with short literal
+// rows: the number of iterations is at most the longest row.  The phi's
+// back-edge value must be computed in the loop body (one addition per trip).
+func rangeLoopTrips(phi *ssa.Phi) (int64, bool) {
+	b := phi.Block()
+	if b == nil || len(b.Instrs) == 0 || len(b.Preds) != 2 {
+		return 0, false
+	}
+	iff, ok := b.Instrs[len(b.Instrs)-1].(*ssa.If)
+	if !ok {
+		return 0, false
+	}
+	cmp, ok := iff.Cond.(*ssa.BinOp)
+	if !ok || cmp.Op != token.LSS {
+		return 0, false
+	}
+	inc, ok := cmp.X.(*ssa.BinOp)
+	if !ok || inc.Op != token.ADD {
+		return 0, false
+	}
+	idx, ok := inc.X.(*ssa.Phi)
+	if !ok || idx.Block() != b || idx == phi {
+		return 0, false
+	}
+	if k, ok := constInt64(inc.Y); !ok || k != 1 {
+		return 0, false
+	}
+	// idx = phi(-1, idx+1)
+	okIdx := false
+	for _, e := range idx.Edges {
+		if k, ok := constInt64(e); ok && k == -1 {
+			okIdx = true
+		} else if e != ssa.Value(inc) {
+			return 0, false
+		}
+	}
+	if !okIdx {
+		return 0, false
+	}
+	ln, ok := cmp.Y.(*ssa.Call)
+	if !ok || len(ln.Call.Args) != 1 {
+		return 0, false
+	}
+	if bi, ok := ln.Call.Value.(*ssa.Builtin); !ok || bi.Name() != "len" {
+		return 0, false
+	}
+	// the back edge of the summing phi comes from inside the loop (body
+	// reached by the true branch); the addition is not inside a nested loop
+	// header of its own (it would then be another phi)
+	return tableRowLenMax(ln.Call.Args[0])
+}
+
+// tableRowLenMax: row is an element of a package-level table that is never
+// written (see tableLeafRange); the result is the length of its longest
+// literal row.
+func tableRowLenMax(row ssa.Value) (int64, bool) {
+	var g *ssa.Global
+	switch x := row.(type) {
+	case *ssa.UnOp:
+		if ia, ok := x.X.(*ssa.IndexAddr); ok && x.Op == token.MUL {
+			g, _ = ia.X.(*ssa.Global)
+		}
+	case *ssa.Index:
+		if u, ok := x.X.(*ssa.UnOp); ok && u.Op == token.MUL {
+			g, _ = u.X.(*ssa.Global)
+		}
+	}
+	if g == nil {
+		return 0, false
+	}
+	if _, ok := tableLeafRange(g); !ok {
+		return 0, false
+	}
+	lit := globalInitLit(g)
+	if lit == nil {
+		return 0, false
+	}
+	var maxLen int64
+	for _, el := range lit.Elts {
+		v := el
+		if kv, ok := el.(*ast.KeyValueExpr); ok {
+			v = kv.Value
+		}
+		row, ok := ast.Unparen(v).(*ast.CompositeLit)
+		if !ok {
+			return 0, false
+		}
+		for _, re := range row.Elts {
+			if _, keyed := re.(*ast.KeyValueExpr); keyed {
+				return 0, false
+			}
+		}
+		if n := int64(len(row.Elts)); n > maxLen {
+			maxLen = n
+		}
+	}
+	return maxLen, true
 }
